@@ -57,6 +57,9 @@ func goDump(e ast.Expr) string {
 	case *ast.BasicLit:
 		return x.Value
 	case *ast.BinaryExpr:
+		if x.Op == token.AND_NOT { // goatlang has no &^ token: it reads & followed by the unary ^
+			return "(& " + goDump(x.X) + " (complement " + goDump(x.Y) + "))"
+		}
 		return "(" + x.Op.String() + " " + goDump(x.X) + " " + goDump(x.Y) + ")"
 	case *ast.UnaryExpr:
 		inner := goDump(x.X)
@@ -195,6 +198,8 @@ func goEval(e ast.Expr, env map[string]tval) (res tval, typeOK bool) {
 			return tval{i: a.i >> b.i}, true
 		case token.AND:
 			return tval{i: a.i & b.i}, true
+		case token.AND_NOT:
+			return tval{i: a.i &^ b.i}, true
 		case token.OR:
 			return tval{i: a.i | b.i}, true
 		case token.XOR:
@@ -345,6 +350,23 @@ func cmdC05(seed uint64, thorough bool, dir string) {
 		}
 	}
 	nExh := len(exprs)
+	// Go's remaining binary operator, &^ (bit clear): goatlang reads it as & followed by unary ^, which groups
+	// like Go's level-5 operator; every pair and triple with it (differential only; GoPrec's token alphabet has no &^)
+	withAndNot := append(append([]string{}, c05Bin...), "&^")
+	for _, o1 := range withAndNot {
+		for _, o2 := range withAndNot {
+			if o1 != "&^" && o2 != "&^" {
+				continue
+			}
+			addE([]etok{at("a"), {text: o1}, at("b"), {text: o2}, at("c")})
+			addE([]etok{at("a"), {text: o1}, {text: "("}, at("b"), {text: o2}, at("c"), {text: ")"}})
+			for _, o3 := range c05Bin {
+				addE([]etok{at("a"), {text: o1}, at("b"), {text: o2}, at("c"), {text: o3}, at("d")})
+				addE([]etok{at("a"), {text: o3}, at("b"), {text: o1}, at("c"), {text: o2}, at("d")})
+			}
+		}
+	}
+	nExhAll := len(exprs)
 	nr := 6000
 	if thorough {
 		nr = 150000
@@ -378,7 +400,10 @@ func cmdC05(seed uint64, thorough bool, dir string) {
 				wellTyped[i] = ge
 			}
 		}
-		if i < nExh/6 || len(cases) < 4000 && (i%7 == 0 || i >= nExh) {
+		if strings.Contains(src, "&^") {
+			continue // not in the Coq model's token alphabet
+		}
+		if i < nExh/6 || len(cases) < 4000 && (i%7 == 0 || i >= nExhAll) {
 			cases = append(cases, fmt.Sprintf("CParse %s %s", toksCoq(ts), coqStrLit(gotS)))
 		}
 	}
